@@ -1252,6 +1252,9 @@ func (db *DB) syncOnce(ctx context.Context, maxSyncWALBytes int64) (syncResult, 
 
 func (db *DB) lockExec(ctx context.Context) error {
 	if db.execSem.TryAcquire(1) {
+		if verifEnabled {
+			verifTrace("exec.acquired", db.path)
+		}
 		return nil
 	}
 	db.beginSyncExecutorWait()
@@ -2041,6 +2044,9 @@ func (db *DB) sync(ctx context.Context, checkpointing bool, exec *syncExecutor, 
 	if !checkpointing {
 		db.chkMu.RLock()
 		defer db.chkMu.RUnlock()
+		if verifEnabled {
+			verifTrace("sync.chk-rlock", db.path)
+		}
 	}
 
 	fi, err := db.f.Stat()
@@ -2780,6 +2786,9 @@ func (db *DB) snapshotPosition(ctx context.Context) (*snapshotReadPosition, erro
 	// checkpoint can run between capturing pos and locking chkMu — the
 	// snapshot always matches the advertised position.
 	db.chkMu.RLock()
+	if verifEnabled {
+		verifTrace("snapshot.pos", db.path, uint64(pos.TXID))
+	}
 	return &snapshotReadPosition{
 		pos:          pos,
 		pageSize:     pageSize,
